@@ -67,7 +67,7 @@ def gen_case_i(seed, tier, index):
     o["wrappers"] = cfg.random() < 0.5
     prog = progen.gen_program(cfg, o)
     n = cfg.randint(10, 60) if tier == "quick" else cfg.randint(10, 160)
-    steps = progdrv.gen_steps(prog, wl, fl, n, p_reset=fl.choice([0.0, 0.05, 0.15]), p_coincide=fl.choice([0.0, 0.3, 0.7]))
+    steps = progdrv.gen_steps(prog, wl, fl, n, p_reset=fl.choice([0.0, 0.05, 0.15]), p_coincide=fl.choice([0.0, 0.3, 0.7]), p_mixed=fl.choice([0.0, 0.1, 0.25]))
     drv = [i for i, s in enumerate(prog["signals"]) if s["role"] == "driven"]
     ports = [i for i in drv if cfg.random() < 0.7] or drv[:1]
     return {"kind": "prog", "prog": prog, "sched": sched, "steps": steps, "ports": ports}
